@@ -177,7 +177,12 @@ def check_instance(key, S, seg, params, opts, viols, cap, want_cost=False):
     if problems:
         import re
         neg = [q for q in problems if re.search(r"undeclared symbol [a-z]+_-\d", q)]
-        if neg and len(neg) * 2 >= len([q for q in problems if q.startswith("undeclared")]):
+        und = [q for q in problems if q.startswith("undeclared")]
+        cells = [re.fullmatch(r"undeclared symbol [xu]_(-?\d+)_\d+", q) for q in und]
+        outside = bool(und) and all(m_ and not (0 <= int(m_.group(1)) < S["max_sk_sz"]) for m_ in cells)
+        if neg and (len(neg) * 2 >= len(und) or outside):
+            # every undeclared symbol is a stack cell outside [0, max_sk_sz): the transitions refer to cells the
+            # degenerate stack bound does not have
             cls = "undeclared stack variable with a negative position (stack bound %d)" % S["max_sk_sz"]
         else:
             cls = re.sub(r"\b([a-z]+)_-?\d+(_-?\d+)?\b", r"\1_<i>", problems[0])
